@@ -307,7 +307,17 @@ impl SubCheck for Text {
                 t.push_str(post);
                 t
             });
-        let near_input = prop_oneof![12 => near_input, 1 => runs];
+        // a valid text cut somewhere, continued by a few characters of keywords ("UTC", "Z", "GMT", signs)
+        // and then a multi-byte character: where a reader peeks a fixed number of bytes ahead
+        let cut = (crate::props::c12::value(), 0u8..4, any::<u16>(), "[UuTtCcZzGgMm+\\-:. 0-9]{0,3}", proptest::sample::select(vec!['€', 'é', 'ø', '🤠', '\u{6af}', '日', '\u{2212}', '\u{a0}']), "[ -~]{0,3}")
+            .prop_map(|(v, form, at, kw, mb, tail)| {
+                let f = ["%Y-%m-%dT%H:%M:%S%.f%:z", "%a, %d %b %Y %H:%M:%S %z", "%Y-%m-%d %H:%M:%S UTC", "%+"][form as usize];
+                let s = crate::props::c12::chrono_format(f, &crate::props::c12::V { kind: 3, day: v.day.clamp(cal::min_day() + 2, cal::max_day() - 2), ..v }).ok().and_then(|r| r.ok()).unwrap_or_else(|| "2015-02-18T23:16:09Z".to_string());
+                let cs: Vec<char> = s.chars().collect();
+                let p = if at % 3 == 0 { cs.len() } else { at as usize % (cs.len() + 1) };
+                format!("{}{kw}{mb}{tail}", cs[..p].iter().collect::<String>())
+            });
+        let near_input = prop_oneof![12 => near_input, 1 => runs, 2 => cut];
         let pair = (crate::props::c12::format_string(), crate::props::c12::value(), any::<u16>(), any::<char>()).prop_map(|(f, v, pos, ch)| {
             // a formatted value, damaged by one edit, together with its format
             let s = crate::props::c12::chrono_format(&f, &v).ok().and_then(|r| r.ok()).unwrap_or_default();
